@@ -98,7 +98,7 @@ impl Property for C02 {
         p.switch_pct = 8;
         p.max_len = 300;
         let mut t = gen::trace("C02", seed, index, &p);
-        if t.bytes_total() <= 64 && r.chance(1, 2) {
+        if t.bytes_total() <= gen::bound(64) && r.chance(1, 2) {
             t.extra = vec![1];
         }
         t
